@@ -267,8 +267,9 @@ func (ka *ecdheKeyAgreementGM) generateClientKeyExchange(config *Config, clientH
 		preMasterSecret = sharedKey[:]
 	} else {
 		curve, ok := curveForCurveID(ka.curveid)
-		if !ok {
-			panic("internal error")
+		if !ok || !curve.IsOnCurve(ka.x, ka.y) {
+			// the curve and the point come from the server's (signed) ServerKeyExchange
+			return nil, nil, errors.New("tls: server selected an unsupported curve or a point that is not on it")
 		}
 		priv, mx, my, err := elliptic.GenerateKey(curve, config.rand())
 		if err != nil {
